@@ -170,9 +170,10 @@ static void stats(const uint64_t *v, size_t n, st *s) {
         }
     }
     s->uniqEst = s->uniq;
-    if (n > 10000) {
+    if (n > 10000 && !s->asc && !s->desc) {
         /* above 10000 values the header documents an estimate from a sample
-         * of every (count / sampleSize)-th value */
+         * of every (count / sampleSize)-th value (monotone input can be and,
+         * since the repair of the sorted-input analysis, is counted exactly) */
         size_t ss = n / 10, step = n / ss;
         uint64_t *smp = xalloc(ss);
         for (size_t i = 0; i < ss; i++) {
@@ -225,8 +226,9 @@ static void branch_classes(const st *s) {
                                : "br.unsorted");
     vf_class(n < 10000    ? "br.count<10000"
              : n == 10000 ? "br.count=10000"
-                          : "br.count>10000.sampled");
-    if (n > 10000) {
+                          : "br.count>10000");
+    if (n > 10000 && !s->asc && !s->desc) {
+        vf_class("br.count>10000.sampled");
         float exact = (float)s->uniq / fn;
         if ((exact < 0.15f) != (ratio < 0.15f)) {
             vf_class("br.sampled.misjudged0.15");
